@@ -47,9 +47,13 @@ func (m *Model) PullBrightness(ctx context.Context, opts ...resource.ReadOption)
 		defer close(send)
 		for change := range recv {
 			value := change.Value.(*traits.Brightness)
-			send <- PullBrightnessChange{
+			select {
+			case <-ctx.Done():
+				return
+			case send <- PullBrightnessChange{
 				Value:      value,
 				ChangeTime: change.ChangeTime,
+			}:
 			}
 		}
 	}()
